@@ -36,6 +36,7 @@ type Machine struct {
 	W    *World
 	Hist []Step
 
+	movedRel    [][3]int // (chain, counterparty, relayer) registrations whose address is currently moved away
 	UseCallback bool     // ActSend names the counter contract as callback address in a third of the sends
 	CallKinds   []string // call-data kinds used by ActSend
 	Accepted    int      // accepted protocol messages so far
@@ -536,6 +537,56 @@ func (m *Machine) ActToggleRoundTrip(t *rapid.T) {
 	}
 	m.R.Label(fmt.Sprintf("toggle_round_trip_replays_%d", min(replays, 3)))
 	m.Log("toggleRoundTrip", fmt.Sprintf("client of %d on %d", s, d), fmt.Sprintf("%d replays rejected", replays))
+}
+
+// ActMoveRelayerAddress: governance re-registers a relayer on chain s with the same chains but ANOTHER address for counterparty
+// chain x (or moves it back). Acknowledgements naming the relayer's old address on x then find no fee recipient on s: they
+// must be refused as a whole (the packet stays in flight until the registration is repaired), never consumed half-way.
+func (m *Machine) ActMoveRelayerAddress(t *rapid.T) {
+	w := m.W
+	s := rapid.IntRange(0, len(w.Chains)-1).Draw(t, "on")
+	x := rapid.IntRange(0, len(w.Chains)-2).Draw(t, "for")
+	if x >= s {
+		x++
+	}
+	ri := rapid.IntRange(0, len(w.Rels)-1).Draw(t, "relayer")
+	// registrations are usually repaired soon: three times out of four an address that is currently moved away is moved back
+	if len(m.movedRel) > 0 && rapid.IntRange(0, 3).Draw(t, "repair") != 0 {
+		k := m.movedRel[len(m.movedRel)-1]
+		s, x, ri = k[0], k[1], k[2]
+	}
+	rel := w.Rels[ri]
+	cs := w.Chains[s]
+	ir, found := cs.App.XIBCKeeper.ClientKeeper.GetRelayer(cs.Ctx(), rel.Acc.String())
+	if !found {
+		t.Skip("relayer not registered")
+	}
+	chains, addrs := append([]string{}, ir.Chains...), append([]string{}, ir.Addresses...)
+	what := "unchanged"
+	for i, n := range chains {
+		if n == w.Chains[x].ChainID {
+			if addrs[i] == rel.Acc.String() {
+				// an address nobody else is registered with (a shared one would legitimately make its other owner the fee recipient)
+				addrs[i], what = fmt.Sprintf("0x%038x%02x", append([]byte{byte(s), byte(x)}, rel.Addr.Bytes()[:17]...), 0xee), "moved away"
+			} else {
+				addrs[i], what = rel.Acc.String(), "moved back"
+			}
+		}
+	}
+	cs.RegisterRelayer(rel.Acc, chains, addrs)
+	key := [3]int{s, x, ri}
+	var rest [][3]int
+	for _, k := range m.movedRel {
+		if k != key {
+			rest = append(rest, k)
+		}
+	}
+	m.movedRel = rest
+	if what == "moved away" {
+		m.movedRel = append(m.movedRel, key)
+	}
+	m.R.Label("relayer_address_" + strings.ReplaceAll(what, " ", "_"))
+	m.Log("moveRelayerAddress", fmt.Sprintf("relayer %s on chain %d for chain %d", rel.Acc.String()[:14], s, x), what)
 }
 
 // ActFundMoody gives the moody callback contract of a chain a balance, after which callbacks into it stop reverting.
